@@ -750,6 +750,11 @@ impl JSON {
                     let mut _parsed_float = "0.0".to_string();
                     if raw_value != 0.0 {
                         _parsed_float = raw_value.to_string();
+                        // keep the value a floating point number for whoever reads it back
+                        let is_written_as_integer = _parsed_float.chars().all(|x| x.is_numeric() || x == '-');
+                        if is_written_as_integer {
+                            _parsed_float = [_parsed_float, ".0".to_string()].join(SYMBOL.empty_string);
+                        }
                     }
                     let formatted_property = format!("  \"{}\": {}", &property.property_name, _parsed_float);
                     properties_list.push(formatted_property.to_string());
